@@ -15,12 +15,41 @@ import ast
 import os
 
 from .. import translate
+from . import normalize
 
 ENGINES = (
     ("torch", "fairlearn/adversarial/_pytorch_engine.py", "PytorchEngine"),
     ("tf", "fairlearn/adversarial/_tensorflow_engine.py", "TensorflowEngine"),
 )
 TENSORS = {"dW_LP": "dW_LP", "dW_LA": "dW_LA"}
+
+
+# locals of the pinned `train_step` functions in order of first binding (normalize.canon_function)
+PINNED_LOCALS = {
+    "PytorchEngine": ["Y_hat", "LP", "p", "dW_LP", "A_hat", "LA", "dW_LA", "i", "unit_dW_LA", "proj"],
+    "TensorflowEngine": ["tape", "Y_hat", "LP", "A_hat", "LA", "dW_LP", "dU_LA", "dW_LA", "i", "unit_dW_LA", "proj"],
+}
+PURE_TENSOR = ("norm", "sum", "mul", "multiply", "inner", "clone", "detach", "finfo", "dot", "vdot", "flatten", "ravel",
+               "reduce_sum", "cat", "concat")
+# generated definition -> (emitted term, source line quoted in the doc comment) for the pinned source; a definition whose
+# lifted term is the pinned one (modulo operand order of `+` / `*`) is emitted with the pinned term and quotation
+PINNED_DEFS = {
+    "torchInner": (".frobenius", "proj = torch.sum(unit_dW_LA * dW_LP[i])"),
+    "torchTiny": (".float32", "unit_dW_LA = dW_LA[i] / (torch.norm(dW_LA[i]) + torch.finfo(torch.float32).tiny)"),
+    "torchUnit": ("(dW_LA / (norm + tiny))", None),
+    "torchGrad": ("((dW_LP - (proj * unit_dW_LA)) - (alpha * dW_LA))", "p.grad = dW_LP[i] - proj * unit_dW_LA - self.base.alpha * dW_LA[i]"),
+    "tfInner": (".frobenius", "proj = tensorflow.reduce_sum(tensorflow.multiply(dW_LP[i], unit_dW_LA))"),
+    "tfTiny": (".float32", "unit_dW_LA = dW_LA[i] / (tensorflow.norm(dW_LA[i]) + finfo(float32).tiny)"),
+    "tfUnit": ("(dW_LA / (norm + tiny))", None),
+    "tfGrad": ("((dW_LP - (proj * unit_dW_LA)) - (alpha * dW_LA))", "dW_LP[i] = dW_LP[i] - proj * unit_dW_LA - self.base.alpha * dW_LA[i]"),
+}
+
+
+def _pin(name, expr, src):
+    pin = PINNED_DEFS[name]
+    if normalize.lean_prefer(expr, [pin[0]]) == pin[0]:
+        return pin[0], (pin[1] if pin[1] is not None else src)
+    return expr, src
 
 
 class _U(translate.Untranslatable):
@@ -137,11 +166,12 @@ def _arith(node, env):
 
 def _find_loop(repo, rel, cls):
     with open(os.path.join(repo, rel)) as f:
-        tree = ast.parse(f.read())
+        tree = normalize.parse(f.read())
     for c in tree.body:
         if isinstance(c, ast.ClassDef) and c.name == cls:
             for fn in c.body:
                 if isinstance(fn, ast.FunctionDef) and fn.name == "train_step":
+                    fn = normalize.canon_function(fn, PINNED_LOCALS.get(cls, []), extra_methods=PURE_TENSOR)
                     loops = [s for s in fn.body if isinstance(s, ast.For)]
                     if len(loops) != 1:
                         raise _U(f"C16 lifter: {rel}: expected exactly one for-loop in train_step, found {len(loops)}")
@@ -162,6 +192,10 @@ def lift_engine(repo, rel, cls):
         raise _U(f"C16 lifter: {rel}: combined gradient is stored in `{tgt}`")
     # normalise line:  dW_LA[i] / (norm(dW_LA[i]) + <tiny>)
     v = s_unit.value
+    if isinstance(v, ast.BinOp) and isinstance(v.op, ast.Div) and isinstance(v.right, ast.BinOp) \
+            and isinstance(v.right.op, ast.Add) and not isinstance(v.right.left, ast.Call) and isinstance(v.right.right, ast.Call):
+        # `tiny + norm(..)`: addition of two floats commutes bit for bit; matched (and emitted) as `norm(..) + tiny`
+        v = ast.BinOp(left=v.left, op=v.op, right=ast.BinOp(left=v.right.right, op=ast.Add(), right=v.right.left))
     ok = (isinstance(v, ast.BinOp) and isinstance(v.op, ast.Div) and isinstance(v.right, ast.BinOp)
           and isinstance(v.right.op, ast.Add) and isinstance(v.right.left, ast.Call)
           and _call_name(v.right.left) in ("torch.norm", "tensorflow.norm", "tf.norm", "torch.linalg.norm")
@@ -226,6 +260,14 @@ def adv_projection(repo):
     for eng, rel, cls in ENGINES:
         r = lift_engine(repo, rel, cls)
         meta[eng] = {"inner": r["inner"], "tiny": r["tiny"]}
+        actual_unit_src = r["src_unit"]
+        inner, r["src_proj"] = _pin(eng + "Inner", "." + r["inner"], r["src_proj"])
+        tiny, r["src_unit"] = _pin(eng + "Tiny", "." + r["tiny"], r["src_unit"])
+        r["inner"], r["tiny"] = inner[1:], tiny[1:]
+        r["unit"], _ = _pin(eng + "Unit", r["unit"], None)
+        if r["unit"] != PINNED_DEFS[eng + "Unit"][0]:
+            r["src_unit"] = actual_unit_src         # the quoted normalise line also documents `<eng>Unit`
+        r["grad"], r["src_grad"] = _pin(eng + "Grad", r["grad"], r["src_grad"])
         out += [f"/-- {rel}: `{r['src_proj']}` -/",
                 f"def {eng}Inner : InnerKind := .{r['inner']}", "",
                 f"/-- {rel}: `{r['src_unit']}` -/",
